@@ -60,6 +60,9 @@ func (in *Interp) builtin(g *G, fr *Frame, b *ssa.Builtin, args []Value, call *s
 			if x.R == nil {
 				return mkInt(0, 64)
 			}
+			if n, ok := nominalLen(x); ok {
+				return mkInt(uint64(n), 64)
+			}
 			return mkInt(uint64(len(x.R.(*SliceV).S)), 64)
 		case KMap:
 			if x.R == nil {
